@@ -79,6 +79,14 @@ def bulk(ctx, helper):
             op["kid"] = "https://ca.example/acct/" + "".join(rng.choice(alphabet) for _ in range(rng.randint(1, 8)))
         ops.append(op)
         meta.append((kt, k, mode))
+    # ECDSA components two or more bytes short are what distinguishes fixed-width padding from "put one zero
+    # back": 2^-8 per P-521 signature.  Enough P-521 signatures that a run without one is out of the question
+    # (6000: (255/256)^6000 < 1e-10), on small messages so that they cost little.
+    for i in range(6000 if ctx.quick() else 20000):
+        k = keys["ecdsa-p521"][i % len(keys["ecdsa-p521"])]
+        ops.append({"op": "jws", "key_pem": k["pem"], "payload": "", "url": "https://ca.example/p521/%d" % i, "nonce": "n%d" % i,
+                    "kid": "https://ca.example/acct/1"})
+        meta.append(("ecdsa-p521", k, "kid"))
     impl = vlib.probe(ops, timeout=3000)
     exp_in, keep = [], []
     for op, (kt, k, mode), i in zip(ops, meta, impl):
